@@ -4,7 +4,7 @@ namespace babylon_vf {
 using Vec = ::babylon::ReusableVector<long>;
 long force(Vec& v, Vec& w, long x) {
   v.reserve(10); v.emplace_back(x); v.push_back(x); v.pop_back(); v.resize(5); v.resize(7, x); v.clear();
-  v.emplace(v.begin(), x); v.insert(v.begin(), x); v.erase(v.begin()); v.erase(v.begin(), v.end()); v.swap(w); v.assign(3ul);
+  v.emplace(v.begin(), x); v.insert(v.begin(), x); v.erase(v.begin()); v.erase(v.begin(), v.end()); v.swap(w); v.assign(3ul); v.insert(v.begin(), 2ul, x); v.assign(4ul, x);
   return v[0] + v.front() + v.back() + (long)v.size() + (long)v.capacity() + (v.empty() ? 1 : 0);
 }
 }
